@@ -117,12 +117,25 @@ func newWSHandler(host string, dial dialFunc, conn gkm.Gauge) http.Handler {
 			// client gets all of it, not only what came with the first read
 			out.SetReadDeadline(time.Time{})
 			rest := io.TeeReader(out, in)
-			resp, err := http.ReadResponse(bufio.NewReader(io.MultiReader(bytes.NewReader(b), rest)), r)
-			if err == nil {
+			br := bufio.NewReader(io.MultiReader(bytes.NewReader(b), rest))
+			// informational responses (e.g. 103 Early Hints) are followed by
+			// the final one, which may still be the 101 of a successful handshake
+			for {
+				resp, err := http.ReadResponse(br, r)
+				if err != nil {
+					return
+				}
 				io.Copy(io.Discard, resp.Body)
 				resp.Body.Close()
+				if resp.StatusCode >= 200 {
+					return
+				}
+				if resp.StatusCode == http.StatusSwitchingProtocols {
+					// everything read from the upstream so far has been
+					// passed on to the client already
+					break
+				}
 			}
-			return
 		}
 
 		out.SetReadDeadline(time.Time{})
